@@ -96,7 +96,7 @@ type customForm struct {
 
 var c06Forms = []customForm{
 	{"extend-local", false}, {"extend-pkg", false}, {"extend-regex", false}, {"extend-conv-arg", false},
-	{"extend-error", true}, {"declared-method", false}, {"underlying", false},
+	{"extend-error", true}, {"declared-method", false}, {"underlying", false}, {"underlying-src", false}, {"underlying-dst", false}, {"underlying-enum", false},
 	{"extend-ctx-int", false}, {"extend-ctx-needs-missing", false}, {"extend-ctx-of-two", false}, {"extend-ctx-regex", false},
 	{"extend-error-ctx", true},
 	{"extend-sametype", false}, {"extend-sametype-skipcopy", false},
@@ -125,11 +125,22 @@ func buildC06(id string, form customForm, nest []nesting, wrapMode string, propG
 
 	// leaf pair
 	var s0, t0 *space.Ty
-	if form.name == "underlying" {
+	if strings.HasPrefix(form.name, "underlying") {
 		ls := &space.Decl{Pkg: "in", Name: "U" + id, Under: tInt}
 		lt := &space.Decl{Pkg: "out", Name: "U" + id, Under: tStr}
+		if form.name == "underlying-enum" {
+			// both sides are enums by definition: the pair qualifies for enum conversion and for the underlying extend
+			ls.Consts = []space.Const{{Name: "U" + id + "A", Lit: "1"}}
+			lt.Consts = []space.Const{{Name: "U" + id + "A", Lit: `"a"`}}
+		}
 		sc.Decls = append(sc.Decls, ls, lt)
 		s0, t0 = space.N(ls), space.N(lt)
+		switch form.name {
+		case "underlying-src":
+			t0 = tStr // named source, plain target: only the source is unwrapped
+		case "underlying-dst":
+			s0 = tInt // plain source, named target: only the result is wrapped
+		}
 	} else if strings.HasPrefix(form.name, "declared-method-ctx") {
 		// the leaf contains a further named struct, so converting it needs a sub-method of its own
 		is := &space.Decl{Pkg: "in", Name: "I" + id, Under: space.St(f("Q", tInt))}
@@ -160,7 +171,7 @@ func buildC06(id string, form customForm, nest []nesting, wrapMode string, propG
 	params := "source " + s.Go("conv")
 	var ctxTypes []*space.Ty
 	var mlines []string
-	hasErr := form.fallible
+	hasErr := form.fallible && wrapMode != "noerr" // "noerr": the tested method has no error result, so it must be refused
 	switch form.name {
 	case "declared-method-ctx-available":
 		params = "ctxa string, source " + s.Go("conv")
@@ -262,7 +273,7 @@ func buildC06(id string, form customForm, nest []nesting, wrapMode string, propG
 		applyMethodLines(lm, lines)
 		conv.Methods = append(conv.Methods, lm)
 		sc.Methods = append(sc.Methods, &ScMethod{Name: "Leaf", Params: "source " + sG + ", ctxq string", Result: tG, Lines: lines, M: lm})
-	case "underlying":
+	case "underlying", "underlying-src", "underlying-dst", "underlying-enum":
 		sc.ConvLines = append(sc.ConvLines, "useUnderlyingTypeMethods", "extend "+fn)
 		conv.Set.UseUnderlying = true
 		top.Set.UseUnderlying = true
@@ -374,7 +385,7 @@ func C07Scenarios(tier string) []*Scenario {
 		if !form.fallible {
 			continue
 		}
-		for _, wrap := range []string{"", "wrapErrors", "wrapErrorsUsing"} {
+		for _, wrap := range []string{"", "wrapErrors", "wrapErrorsUsing", "noerr"} {
 			for _, path := range nestPaths(depth) {
 				n++
 				out = append(out, buildC06(fmt.Sprintf("%05d", n), form, path, wrap, "C07", "C07"))
@@ -520,16 +531,26 @@ func buildFallibleKind(id string, kind string, nest []nesting, wrapMode string) 
 	sc.ConvLines = append(sc.ConvLines, "enum:unknown @ignore")
 	conv.Set.EnumUnknown = "@ignore"
 	lm.Set = conv.Set
+	// "noerr": the top method has no error result; "noerr-leaf": the declared leaf method has none (the top one has)
+	topErr, leafErr := wrapMode != "noerr", wrapMode != "noerr-leaf"
+	res := func(t *space.Ty, withErr bool) string {
+		if withErr {
+			return "(" + t.Go("conv") + ", error)"
+		}
+		return t.Go("conv")
+	}
 	if len(nest) == 0 {
 		// the declared method itself is the test method
 		lm.Name = "Convert"
+		lm.HasErr = topErr
 		conv.Methods = []*model.Method{lm}
-		sc.Methods = []*ScMethod{{Name: "Convert", Params: "source " + s0.Go("conv"), Result: "(" + t0.Go("conv") + ", error)", Lines: llines, M: lm}}
+		sc.Methods = []*ScMethod{{Name: "Convert", Params: "source " + s0.Go("conv"), Result: res(t0, topErr), Lines: llines, M: lm}}
 	} else {
-		top := &model.Method{Name: "Convert", Src: s, Dst: t, Set: conv.Set, Fields: map[string]*model.FieldCfg{}, HasErr: true}
+		lm.HasErr = leafErr
+		top := &model.Method{Name: "Convert", Src: s, Dst: t, Set: conv.Set, Fields: map[string]*model.FieldCfg{}, HasErr: topErr}
 		conv.Methods = []*model.Method{top, lm}
-		sc.Methods = []*ScMethod{{Name: "Convert", Params: "source " + s.Go("conv"), Result: "(" + t.Go("conv") + ", error)", M: top},
-			{Name: "Leaf", Params: "source " + s0.Go("conv"), Result: "(" + t0.Go("conv") + ", error)", Lines: llines, M: lm}}
+		sc.Methods = []*ScMethod{{Name: "Convert", Params: "source " + s.Go("conv"), Result: res(t, topErr), M: top},
+			{Name: "Leaf", Params: "source " + s0.Go("conv"), Result: res(t0, leafErr), Lines: llines, M: lm}}
 	}
 	sc.Mode = "value,nomutate"
 	switch wrapMode {
@@ -552,8 +573,11 @@ func FallibleKindScenarios(tier string) []*Scenario {
 		depth = 2
 	}
 	for _, kind := range []string{"mapfunc", "structmethod", "default"} {
-		for _, wrap := range []string{"", "wrapErrors", "wrapErrorsUsing"} {
+		for _, wrap := range []string{"", "wrapErrors", "wrapErrorsUsing", "noerr", "noerr-leaf"} {
 			for _, path := range nestPaths(depth) {
+				if wrap == "noerr-leaf" && len(path) == 0 {
+					continue
+				}
 				n++
 				out = append(out, buildFallibleKind(fmt.Sprintf("%05d", n), kind, path, wrap))
 			}
